@@ -8533,6 +8533,17 @@ moveto:
                     LY_CHECK_GOTO(rc, cleanup);
                 }
                 rc = moveto_node(set, moveto_mod, ncname_dict, axis, options);
+                if (!rc && !moveto_mod && !ncname_dict && !(options & LYXP_SKIP_EXPR) &&
+                        (set->type == LYXP_SET_NODE_SET)) {
+                    /* "*" selects element nodes only, unlike the node test node() it does not match the root */
+                    for (i = 0; i < set->used; ++i) {
+                        if ((set->val.nodes[i].type == LYXP_NODE_ROOT) ||
+                                (set->val.nodes[i].type == LYXP_NODE_ROOT_CONFIG)) {
+                            set_remove_node(set, i);
+                            break;
+                        }
+                    }
+                }
             }
             LY_CHECK_GOTO(rc, cleanup);
         }
